@@ -1602,10 +1602,17 @@ def check_c11(ctx, cr, s):
                         break
                     ctx.ob({"C11"}, okey, False if bad else (None if und else True), bad or ("unresolved" if und else ""))
         # who may write the raw field
+    # (one obligation per declaration, so the count follows the model and not how the generator splits its code)
+    writers = 0
+    foreign = 0
     for f in cr["fns"]:
         if path in f.get("assigns_fields_of", []) or path in f.get("constructs", []):
-            ok = f.get("adt") in (path, pp)
-            ctx.ob({"C11"}, "%s|raw_writer|%s" % (path, f["path"]), ok, "raw_value of %s is written by %s" % (path, f["path"]) if not ok else "")
+            writers += 1
+            if f.get("adt") not in (path, pp):
+                foreign += 1
+                ctx.ob({"C11"}, "%s|raw_writer|%s" % (path, f["path"]), False, "raw_value of %s is written by %s" % (path, f["path"]))
+    if not foreign:
+        ctx.ob({"C11"}, "%s|raw_writers" % path, True if writers else None, "" if writers else "no function constructing the type was found")
 
 
 # ------------------------------------------------------------------ C16 totality
